@@ -348,6 +348,12 @@ func runC04(p *Program, r *Result) {
 		var inDec []fieldStore
 		for _, fs := range stores {
 			if fs.Fn == dec {
+				// an empty slice stored up front (pre-sizing) records nothing
+				if ms, isMake := stripConv(fs.Store.Val).(*ssa.MakeSlice); isMake {
+					if k, isK := constInt(ms.Len); isK && k == 0 {
+						continue
+					}
+				}
 				inDec = append(inDec, fs)
 			}
 		}
